@@ -481,6 +481,26 @@ def parse_process_cov_guards(src):
     return "dimLt1_bandGeDim"
 
 
+def parse_is_integer(repo):
+    """intfloat.h IsInteger(Iterator&, Iterator): is `if (b == e) return false;` repeated after the optional sign?"""
+    try:
+        src = strip_comments((Path(repo) / "lib" / "gnu_gama" / "intfloat.h").read_text())
+    except OSError as e:
+        fail(f"cannot read intfloat.h: {e}")
+    m = re.search(r"bool\s+IsInteger\s*\(\s*Iterator\s*&\s*b\s*,\s*Iterator\s+e\s*\)\s*\{", src)
+    if not m:
+        fail("intfloat.h: IsInteger(Iterator&, Iterator) not found")
+    body = src[m.end() - 1:match_brace(src, m.end() - 1)]
+    if "TrimWhiteSpaces" not in body or not re.search(r"case\s*'\+'\s*:\s*case\s*'-'\s*:\s*\+\+b", body):
+        fail("intfloat.h: IsInteger no longer has the expected shape (trim, optional sign)")
+    sw = body.find("switch")
+    n_after = len(re.findall(r"if\s*\(\s*b\s*==\s*e\s*\)\s*return\s+false\s*;", body[sw:]))
+    n_before = len(re.findall(r"if\s*\(\s*b\s*==\s*e\s*\)\s*return\s+false\s*;", body[:sw]))
+    if n_before != 1 or n_after > 1:
+        fail("intfloat.h: IsInteger: unexpected emptiness guards")
+    return n_after == 1
+
+
 def lean_ident(s, prefix):
     assert s.startswith(prefix)
     n = s[len(prefix):]
@@ -508,6 +528,7 @@ def generate(repo):
     accepting, text_err = parse_text_handler(cpp, states)
     tagtab = parse_tag_function(cpp, tags)
     cov_c, cov_lean = parse_finish_cov(cpp)
+    int_lone = parse_is_integer(repo)
     parse_process_cov_guards(cpp)
 
     def start_action(s, t):
@@ -726,6 +747,9 @@ def generate(repo):
     A("")
     A(f"/-- finish_cov: `int elements = {cov_c};` (dim ≥ 1, 0 ≤ band < dim guaranteed by process_cov) -/")
     A(f"def covElements (dim band : Nat) : Nat := {cov_lean}")
+    A("")
+    A("/-- intfloat.h IsInteger: `if (b == e) return false;` after the optional sign (a lone \"+\" / \"-\" is refused) -/")
+    A(f"def intLoneSignRejected : Bool := {'true' if int_lone else 'false'}")
     A("")
     A("end Gama.Gkf")
     return "\n".join(L) + "\n"
